@@ -250,9 +250,9 @@ func init() {
 		core.RunLeg(c, core.Leg[engCase]{
 			Name: "A", Kind: "oracle(entry points pairwise)",
 			Rule: "patterns: random full-syntax ASTs (nullable loops, \\G, balancing groups, Unicode classes, conditionals; half with the search-mode shapes in front) and literals harvested from the repository's tests/corpora; all regex options incl. RightToLeft/ECMAScript/RE2, code-gen analysis on 1/3, ASCII bitmap off 1/4; inputs pattern-directed ≤10 runes, 1/4 with invalid UTF-8 bytes. Reference = FindRunesMatch + FindNextMatch sequence with all groups. Compared: MatchRunes, MatchString, the bool-only program vs the full program at every position, FindStringMatch (+ByteRange against an independent utf8 recomputation, + its FindNextMatch chain), FindStringMatchStartingAt vs FindRunesMatchStartingAt at every rune boundary, FindAllRunesIndex / FindAllStringIndex for n in {-1,1,2}, compat MatchString / FindStringIndex / FindAllStringSubmatchIndex, the matches enumerated inside ReplaceFunc, Replace with $&, the number of matches Split saw. non-trivial = non-empty input",
-			N: c.N(6000, 300000), Corpus: engCorpus, Gen: g.next, Check: c02Check, Batch: 500,
+			N:    c.N(6000, 300000), Corpus: engCorpus, Gen: g.next, Check: c02Check, Batch: 500,
 		})
-		sfRegister(c, 1)      // the raw-string prefix filters (leg Sf, see strfilter.go)
+		sfRegister(c, 1)     // the raw-string prefix filters (leg Sf, see strfilter.go)
 		wrLeg(c, 800, 40000) // the writer model behind QuickCodes / TrackCount (leg Wr, see writer.go)
 	})
 }
